@@ -67,6 +67,8 @@ Sweep == <<
   Row("re", "^x+$", "abc", "regex match is failed, pattern: ^x+$", ""),
   Row("re", "^(x|y)+$", "abc", "regex match is failed, pattern: ^(x|y)+$", ""),     \* alternation: the pattern's own | is not the message bar
   Row("re", "^x{1,2}$", "abc", "regex match is failed, pattern: ^x{1,2}$", ""),     \* comma protected by the quotes
+  \* @Z / @Y: one CJK character each (concretised by the harness): byte and character offsets differ inside the pattern
+  Row("re", "^(@Z@Y|@Y@Z|a)$", "abc", "regex match is failed, pattern: ^(@Z@Y|@Y@Z|a)$", ""),
   Row("in", "'x,y'/z", "abc", "it should in ('x,y'/z)", ""),
   Row("unique", "", "a,a", "they're not unique", ""),
   Row("json", "", "abc", "it is not json", ""),
